@@ -42,15 +42,21 @@ package dnsserver
 //@ modifies m
 //@ ensures mut == old(mut) + 1 && m.Rcode == old(m.Rcode) && m.Authoritative == old(m.Authoritative) && m.Id == old(m.Id) && m.Response == old(m.Response) && m.Answer == old(m.Answer)
 
+// ghost count of the replies fitted to the client's size limit
+//@ ghostvar scrubs nat
 //@ extern github.com/coredns/coredns/request Request.Scrub
-//@ updates mut
+//@ updates mut, scrubs
 //@ modifies reply
+//@ ensures scrubs == old(scrubs) + 1
 //@ ensures mut == old(mut) + 1 && reply.Rcode == old(reply.Rcode) && reply.Authoritative == old(reply.Authoritative) && reply.Id == old(reply.Id) && reply.Response == old(reply.Response) && len(reply.Answer) <= old(len(reply.Answer))
 //@ ensures result == reply
 
 // ---- writeAndLog (C19): what is counted and logged is exactly what was sent ----------------------------
 //@ func FBDNSDB.writeAndLog
-//@ updates cnt, nlogged, lastLogged, loggedAt, nwritten, lastWritten, writtenAt, mut
+//@ updates cnt, nlogged, lastLogged, loggedAt, nwritten, lastWritten, writtenAt, mut, scrubs
+// every reply -- whatever the transport -- is fitted to the client's size limit (truncated with TC when it does not
+// fit) before it is written (C13)
+//@ before ResponseWriter.WriteMsg#0 assert[fitted] scrubs == old(scrubs) + 1
 //@ requires h.logger != nil && h.stats != nil && state.W != nil && resp != nil
 //@ modifies resp
 //@ ensures[fail] err != nil ==> nlogged == old(nlogged) && cnt == old(cnt) && result0 == dns.RcodeServerFailure
@@ -134,7 +140,9 @@ package dnsserver
 // AcquireReader (C05, C06, C14): the served DB is read AND pinned (reference taken) under the read lock,
 // so a reload cannot destroy it in between.
 //@ func FBDNSDB.AcquireReader
-//@ updates closes
+//@ updates closes, ncontexts
+//@ ensures[one-pin] ncontexts == old(ncontexts) + ite(err == nil, 1, 0) || ncontexts == old(ncontexts)
+//@ ensures[pin-count] err == nil ==> ncontexts == old(ncontexts) + 1
 //@ flag skip frame
 //@ requires h.dnsdb != nil ==> dbInv(h.dnsdb) && closes[h.dnsdb.dbi] == 0 && h.dnsdb.refCount < 1000000000
 //@ ensures[nonnil] err == nil ==> result0 != nil
@@ -158,7 +166,10 @@ package dnsserver
 
 // ---- the query handler's decision skeleton (C01, C10, C12, C13, C19) -----------------------------------
 //@ func FBDNSDB.ServeDNSWithRCODE
-//@ updates cnt, nlogged, lastLogged, loggedAt, nlogfailed, nwritten, lastWritten, writtenAt, mut, closes, cached, authQ, authLoc, ansQ, ansCtl, ansType, ansLoc, rrQ, rrLoc
+// one response, one reader: whatever path the query takes, at most one reader (hence one database generation) is
+// pinned for it (C05)
+//@ ensures[one-reader] ncontexts == old(ncontexts) || ncontexts == old(ncontexts) + 1
+//@ updates ncontexts, scrubs, cnt, nlogged, lastLogged, loggedAt, nlogfailed, nwritten, lastWritten, writtenAt, mut, closes, cached, authQ, authLoc, ansQ, ansCtl, ansType, ansLoc, rrQ, rrLoc
 // which names are looked up (C01): the zone-cut walk is asked about the query name; a DS query at or below a
 // delegation is asked again about the QUERY NAME without its first label (the parent side of the name itself, not
 // of the cut that was found); answers are searched for the query name inside the cut the walk returned; SOA and NS
